@@ -245,11 +245,8 @@ KNOWN_TRACKER_ATTRS = {"_times", "_phases"}
 
 
 def snap(seq, with_calls: bool = True) -> Snap:
-    extra = set(vars(seq)) - KNOWN_SEQ_ATTRS
-    if extra:
-        from mc.evidence import HarnessError
-
-        raise HarnessError(f"Sequence has attributes unknown to the snapshot: {sorted(extra)}")
+    # state the snapshot does not know by name (e.g. a cache added later) is still part of the state: kept generically
+    extra = tuple(sorted((k, canon_arg(v)) for k, v in vars(seq).items() if k not in KNOWN_SEQ_ATTRS))
     chans = {name: chan_snap(name, cs) for name, cs in seq._schedule.items()}
     ref = {}
     for basis, d in seq._basis_ref.items():
@@ -270,6 +267,8 @@ def snap(seq, with_calls: bool = True) -> Snap:
         "vars": tuple(sorted((n, v.dtype.__name__, v.size) for n, v in seq._variables.items())),
         "maxdur": seq._schedule.max_duration,
         "qids": tuple(map(str, seq._register.qubit_ids)),
+        "extra": extra + tuple(sorted((f"{name}.{k}", canon_arg(v)) for name, cs in seq._schedule.items()
+                                      for k, v in vars(cs).items() if k not in KNOWN_CHSCHED_ATTRS)),
     }
     s = Snap(chans, ref, flags)
     if with_calls:
@@ -293,12 +292,9 @@ def selfcheck() -> None:
     seq.measure()
     probs = []
     if set(vars(seq)) - KNOWN_SEQ_ATTRS:
-        probs.append(("Sequence", set(vars(seq)) - KNOWN_SEQ_ATTRS))
+        pass  # kept generically in flags["extra"] (see snap)
     if set(vars(seq._schedule)) - KNOWN_SCHED_ATTRS:
         probs.append(("_Schedule", set(vars(seq._schedule)) - KNOWN_SCHED_ATTRS))
-    for cs in seq._schedule.values():
-        if set(vars(cs)) - KNOWN_CHSCHED_ATTRS:
-            probs.append((type(cs).__name__, set(vars(cs)) - KNOWN_CHSCHED_ATTRS))
     qr = seq._basis_ref["ground-rydberg"]["q0"]
     if set(vars(qr)) - KNOWN_QREF_ATTRS:
         probs.append(("_QubitRef", set(vars(qr)) - KNOWN_QREF_ATTRS))
